@@ -46,7 +46,7 @@ type codecCase struct {
 }
 
 // codecValues: default, fully populated, every single field alone, and random values.
-func codecValues(vg *ValueGen, md protoreflect.MessageDescriptor, nRandom int) ([]*dynamicpb.Message, []string) {
+func codecValues(vg *ValueGen, md protoreflect.MessageDescriptor, nRandom int, r *Request) ([]*dynamicpb.Message, []string) {
 	var out []*dynamicpb.Message
 	var labels []string
 	out = append(out, dynamicpb.NewMessage(md))
@@ -94,6 +94,16 @@ func codecValues(vg *ValueGen, md protoreflect.MessageDescriptor, nRandom int) (
 		out = append(out, vg.Random(md, 0.6))
 		labels = append(labels, fmt.Sprintf("random#%d", k))
 	}
+	// directed boundary sweep: every pool value in every scalar position of the message (children one
+	// level down in the thorough tier)
+	// (context wrappers of the catalogue — In*, TList, Other, Leaf — only carry the construct under test
+	// as a child; the construct itself is swept where it is the top-level message)
+	// (the nested-declaration packages repeat the feature packages' codecs at other declaration sites)
+	if n := string(md.Name()); nRandom > 10 || !(strings.HasPrefix(n, "In") || n == "TList" || n == "Other" || n == "Leaf" || n == "Holder" || hasTag(r, "nested-declarations")) {
+		sv, sl := SweepValues(md, nRandom > 10)
+		out = append(out, sv...)
+		labels = append(labels, sl...)
+	}
 	return out, labels
 }
 
@@ -111,7 +121,7 @@ func buildCodecCases(run *Run, s *Session, reqs []*Request, rng *rand.Rand, nRan
 			if md == nil {
 				continue
 			}
-			vals, labels := codecValues(vg, md, nRandom)
+			vals, labels := codecValues(vg, md, nRandom, r)
 			seen := map[string]bool{}
 			for k, v := range vals {
 				w := WireHex(v)
@@ -396,3 +406,4 @@ func CheckC04(run *Run) {
 	debugDump(run)
 	run.Finish()
 }
+
